@@ -145,6 +145,8 @@ class MultiConfig(object):
             if vm in self.cached_fcn:
                 return self.cached_fcn[vm]
         fcns = self.get_fcns(datas=datas, vm=vm, batch=batch)
+        for i in self.configs:
+            self.gauss_constr_dic.update(i.gauss_constr_dic)
         fcn = CombineFCN(fcns=fcns, gauss_constr=self.gauss_constr_dic)
         if datas is None:
             self.cached_fcn[vm] = fcn
